@@ -42,6 +42,15 @@ type Prim struct {
 	Name       string     `json:"name,omitempty"`
 	R, G, B, W [2]float32 // chromaticities as float32 (what the API takes)
 	WY         float32    `json:"white_luminance,omitempty"` // luminance of the white point (0 means 1)
+	PY         [3]float32 `json:"primary_luminances,omitempty"` // luminance fields passed with the three primaries (0 means 1); only their chromaticities matter
+}
+
+func (p Prim) prim(i int) ciexyy.Color {
+	c := xyY([][2]float32{p.R, p.G, p.B}[i])
+	if p.PY[i] != 0 {
+		c.YY = p.PY[i]
+	}
+	return c
 }
 
 func (p Prim) wy() float32 {
@@ -62,26 +71,26 @@ type MatCase struct {
 }
 
 var published = []Prim{
-	{"sRGB/Rec.709", [2]float32{0.64, 0.33}, [2]float32{0.30, 0.60}, [2]float32{0.15, 0.06}, [2]float32{0.3127, 0.3290}, 0},
-	{"Adobe RGB (1998)", [2]float32{0.64, 0.33}, [2]float32{0.21, 0.71}, [2]float32{0.15, 0.06}, [2]float32{0.3127, 0.3290}, 0},
-	{"ProPhoto/ROMM", [2]float32{0.7347, 0.2653}, [2]float32{0.1596, 0.8404}, [2]float32{0.0366, 0.0001}, [2]float32{0.3457, 0.3585}, 0},
-	{"Display P3", [2]float32{0.68, 0.32}, [2]float32{0.265, 0.69}, [2]float32{0.15, 0.06}, [2]float32{0.3127, 0.3290}, 0},
-	{"DCI-P3", [2]float32{0.68, 0.32}, [2]float32{0.265, 0.69}, [2]float32{0.15, 0.06}, [2]float32{0.314, 0.351}, 0},
-	{"Rec.2020", [2]float32{0.708, 0.292}, [2]float32{0.170, 0.797}, [2]float32{0.131, 0.046}, [2]float32{0.3127, 0.3290}, 0},
-	{"NTSC 1953", [2]float32{0.67, 0.33}, [2]float32{0.21, 0.71}, [2]float32{0.14, 0.08}, [2]float32{0.3101, 0.3162}, 0},
-	{"PAL/SECAM", [2]float32{0.64, 0.33}, [2]float32{0.29, 0.60}, [2]float32{0.15, 0.06}, [2]float32{0.3127, 0.3290}, 0},
-	{"SMPTE-C", [2]float32{0.63, 0.34}, [2]float32{0.31, 0.595}, [2]float32{0.155, 0.07}, [2]float32{0.3127, 0.3290}, 0},
-	{"Apple RGB", [2]float32{0.625, 0.34}, [2]float32{0.28, 0.595}, [2]float32{0.155, 0.07}, [2]float32{0.3127, 0.3290}, 0},
-	{"ECI RGB v2", [2]float32{0.67, 0.33}, [2]float32{0.21, 0.71}, [2]float32{0.14, 0.08}, [2]float32{0.3457, 0.3585}, 0},
-	{"Wide Gamut RGB", [2]float32{0.735, 0.265}, [2]float32{0.115, 0.826}, [2]float32{0.157, 0.018}, [2]float32{0.3457, 0.3585}, 0},
-	{"CIE RGB", [2]float32{0.735, 0.265}, [2]float32{0.274, 0.717}, [2]float32{0.167, 0.009}, [2]float32{1.0 / 3, 1.0 / 3}, 0},
-	{"ColorMatch RGB", [2]float32{0.63, 0.34}, [2]float32{0.295, 0.605}, [2]float32{0.15, 0.075}, [2]float32{0.3457, 0.3585}, 0},
-	{"Best RGB", [2]float32{0.7347, 0.2653}, [2]float32{0.215, 0.775}, [2]float32{0.13, 0.035}, [2]float32{0.3457, 0.3585}, 0},
-	{"Beta RGB", [2]float32{0.6888, 0.3112}, [2]float32{0.1986, 0.7551}, [2]float32{0.1265, 0.0352}, [2]float32{0.3457, 0.3585}, 0},
-	{"Bruce RGB", [2]float32{0.64, 0.33}, [2]float32{0.28, 0.65}, [2]float32{0.15, 0.06}, [2]float32{0.3127, 0.3290}, 0},
-	{"Don RGB 4", [2]float32{0.696, 0.3}, [2]float32{0.215, 0.765}, [2]float32{0.13, 0.035}, [2]float32{0.3457, 0.3585}, 0},
-	{"Ekta Space PS5", [2]float32{0.695, 0.305}, [2]float32{0.26, 0.7}, [2]float32{0.11, 0.005}, [2]float32{0.3457, 0.3585}, 0},
-	{"ACEScg AP1", [2]float32{0.713, 0.293}, [2]float32{0.165, 0.830}, [2]float32{0.128, 0.044}, [2]float32{0.32168, 0.33767}, 0},
+	{Name: "sRGB/Rec.709", R: [2]float32{0.64, 0.33}, G: [2]float32{0.30, 0.60}, B: [2]float32{0.15, 0.06}, W: [2]float32{0.3127, 0.3290}},
+	{Name: "Adobe RGB (1998)", R: [2]float32{0.64, 0.33}, G: [2]float32{0.21, 0.71}, B: [2]float32{0.15, 0.06}, W: [2]float32{0.3127, 0.3290}},
+	{Name: "ProPhoto/ROMM", R: [2]float32{0.7347, 0.2653}, G: [2]float32{0.1596, 0.8404}, B: [2]float32{0.0366, 0.0001}, W: [2]float32{0.3457, 0.3585}},
+	{Name: "Display P3", R: [2]float32{0.68, 0.32}, G: [2]float32{0.265, 0.69}, B: [2]float32{0.15, 0.06}, W: [2]float32{0.3127, 0.3290}},
+	{Name: "DCI-P3", R: [2]float32{0.68, 0.32}, G: [2]float32{0.265, 0.69}, B: [2]float32{0.15, 0.06}, W: [2]float32{0.314, 0.351}},
+	{Name: "Rec.2020", R: [2]float32{0.708, 0.292}, G: [2]float32{0.170, 0.797}, B: [2]float32{0.131, 0.046}, W: [2]float32{0.3127, 0.3290}},
+	{Name: "NTSC 1953", R: [2]float32{0.67, 0.33}, G: [2]float32{0.21, 0.71}, B: [2]float32{0.14, 0.08}, W: [2]float32{0.3101, 0.3162}},
+	{Name: "PAL/SECAM", R: [2]float32{0.64, 0.33}, G: [2]float32{0.29, 0.60}, B: [2]float32{0.15, 0.06}, W: [2]float32{0.3127, 0.3290}},
+	{Name: "SMPTE-C", R: [2]float32{0.63, 0.34}, G: [2]float32{0.31, 0.595}, B: [2]float32{0.155, 0.07}, W: [2]float32{0.3127, 0.3290}},
+	{Name: "Apple RGB", R: [2]float32{0.625, 0.34}, G: [2]float32{0.28, 0.595}, B: [2]float32{0.155, 0.07}, W: [2]float32{0.3127, 0.3290}},
+	{Name: "ECI RGB v2", R: [2]float32{0.67, 0.33}, G: [2]float32{0.21, 0.71}, B: [2]float32{0.14, 0.08}, W: [2]float32{0.3457, 0.3585}},
+	{Name: "Wide Gamut RGB", R: [2]float32{0.735, 0.265}, G: [2]float32{0.115, 0.826}, B: [2]float32{0.157, 0.018}, W: [2]float32{0.3457, 0.3585}},
+	{Name: "CIE RGB", R: [2]float32{0.735, 0.265}, G: [2]float32{0.274, 0.717}, B: [2]float32{0.167, 0.009}, W: [2]float32{1.0 / 3, 1.0 / 3}},
+	{Name: "ColorMatch RGB", R: [2]float32{0.63, 0.34}, G: [2]float32{0.295, 0.605}, B: [2]float32{0.15, 0.075}, W: [2]float32{0.3457, 0.3585}},
+	{Name: "Best RGB", R: [2]float32{0.7347, 0.2653}, G: [2]float32{0.215, 0.775}, B: [2]float32{0.13, 0.035}, W: [2]float32{0.3457, 0.3585}},
+	{Name: "Beta RGB", R: [2]float32{0.6888, 0.3112}, G: [2]float32{0.1986, 0.7551}, B: [2]float32{0.1265, 0.0352}, W: [2]float32{0.3457, 0.3585}},
+	{Name: "Bruce RGB", R: [2]float32{0.64, 0.33}, G: [2]float32{0.28, 0.65}, B: [2]float32{0.15, 0.06}, W: [2]float32{0.3127, 0.3290}},
+	{Name: "Don RGB 4", R: [2]float32{0.696, 0.3}, G: [2]float32{0.215, 0.765}, B: [2]float32{0.13, 0.035}, W: [2]float32{0.3457, 0.3585}},
+	{Name: "Ekta Space PS5", R: [2]float32{0.695, 0.305}, G: [2]float32{0.26, 0.7}, B: [2]float32{0.11, 0.005}, W: [2]float32{0.3457, 0.3585}},
+	{Name: "ACEScg AP1", R: [2]float32{0.713, 0.293}, G: [2]float32{0.165, 0.830}, B: [2]float32{0.128, 0.044}, W: [2]float32{0.32168, 0.33767}},
 }
 
 func xyY(c [2]float32) ciexyy.Color { return ciexyy.Color{X: c[0], Y: c[1], YY: 1} }
@@ -92,8 +101,8 @@ func checkPrim(p Prim) (kind, what string, cond float64) {
 	if pn, msg := ev.Guard(func() {
 		w := xyY(p.W)
 		w.YY = p.wy()
-		to = ciexyz.TransformToXYZForXYYPrimaries(xyY(p.R), xyY(p.G), xyY(p.B), w)
-		from = ciexyz.TransformFromXYZForXYYPrimaries(xyY(p.R), xyY(p.G), xyY(p.B), w)
+		to = ciexyz.TransformToXYZForXYYPrimaries(p.prim(0), p.prim(1), p.prim(2), w)
+		from = ciexyz.TransformFromXYZForXYYPrimaries(p.prim(0), p.prim(1), p.prim(2), w)
 	}); pn {
 		return "panic", msg, 0
 	}
@@ -259,6 +268,7 @@ func TestC20(t *testing.T) {
 	ev.Rule("(a) 20 published RGB spaces; (b) rapid triangles inside the chromaticity diagram with area >= 0.01 and white = barycentric mix with weights >= 0.05; (c) rapid 3x3 matrices with entries in [-4,4], |det| >= 1e-3; (d) exactly singular small-integer matrices (zero/repeated column or row, integer linear dependence). non-trivial = generated triangle (not a built-in space) or matrix with condition number > 10")
 	ev.Assume("internal/ref row-major Gauss-Jordan algebra")
 	for _, p := range append(append([]Prim(nil), published...), Prim{Name: "sRGB, white Y=5e-4", R: published[0].R, G: published[0].G, B: published[0].B, W: published[0].W, WY: 5e-4},
+		Prim{Name: "sRGB primaries given with their own luminances", R: published[0].R, G: published[0].G, B: published[0].B, W: published[0].W, PY: [3]float32{0.2126, 0.7152, 0.0722}},
 		Prim{Name: "Rec.2020, white Y=100", R: published[5].R, G: published[5].G, B: published[5].B, W: published[5].W, WY: 100}) {
 		ev.Eval(1)
 		ev.NT(ev.Hash("pub", p.Name))
@@ -297,6 +307,11 @@ func TestC20(t *testing.T) {
 			rt.Skip("white weight")
 		}
 		p.W = [2]float32{float32(w1*float64(p.R[0]) + w2*float64(p.G[0]) + w3*float64(p.B[0])), float32(w1*float64(p.R[1]) + w2*float64(p.G[1]) + w3*float64(p.B[1]))}
+		if rapid.IntRange(0, 2).Draw(rt, "primlum") == 0 {
+			for i := range p.PY {
+				p.PY[i] = rapid.Float32Range(0.05, 2).Draw(rt, "py")
+			}
+		}
 		if rapid.IntRange(0, 3).Draw(rt, "dimwhite") == 0 {
 			p.WY = float32(math.Pow(10, rapid.Float64Range(-6, 3).Draw(rt, "whiteexp")))
 		}
